@@ -95,7 +95,7 @@ def correspondence(ctx, model_available=True):
 
     # (b) whole programs, including ones that leave the program at either end
     pcases = []
-    for k in range(60 if quick else 1200):
+    for k in range(160 if quick else 2000):
         prog = rc.gen_program(rng, wild=(k % 2 == 0))
         st = ec.rand_state(rng)
         st.pc = rng.choice([0, 5, -3])
